@@ -199,6 +199,7 @@ class Runner:
                                                         if self.sc["kind"] == "arr_one" else {c07.py_chain(L, "entry")})
                 out.append({"who": who, "flag": flag, "clause": "keys", "ok": set(doc) == want_top,
                             "detail": "container keys %s, required %s" % (sorted(doc), sorted(want_top))})
+                rt_at = len(out)
                 out.append({"who": who, "flag": flag, "clause": "roundtrip", "ok": rt, "detail": rt_detail})
                 # every element against its OWN class's chain (followed by what the container's list projects)
                 got_elems = []
@@ -217,6 +218,12 @@ class Runner:
                     Li = decl_list(self.sc["items"][i]["decl"]) + proj_enum(L)
                     want_sets.append(frozenset(c07.py_chain(Li, f) for f in self.sc["items"][i]["fields"]))
                     merged_sets.append(frozenset(c07.py_chain(proj_enum(L), merged[f]) for f in self.sc["items"][i]["fields"]))
+                # the one merged mapper of positional items may send two fields of a class to one key although the
+                # class's own mapper is injective: then the container cannot round-trip either (same root cause)
+                if self.sc["kind"] == "pos_arr" and any(
+                        len({c07.py_chain(proj_enum(L) + (["camel"] if flag else []), merged[f]) for f in it["fields"]})
+                        < len(it["fields"]) for it in self.sc["items"]):
+                    out[rt_at]["merged"] = not rt
                 got_sets = [frozenset(e) if isinstance(e, dict) else frozenset(["<not a dict>"]) for e in got_elems]
                 ok = sorted(map(sorted, got_sets)) == sorted(map(sorted, want_sets))
                 is_merged = (not ok and self.sc["kind"] == "pos_arr"
